@@ -409,23 +409,44 @@ func (s *Session) Portfolio(extra *Term, wantModel bool, names []string, timeout
 		}()
 	}
 	var got []ans
+	need := 1
+	if s.cfg != nil && s.cfg.Confirm && len(sel) > 1 {
+		need = 2 // second opinion: two back ends must give the same definitive answer (if a second one answers at all)
+	}
+	var first *ans
 	for range sel {
 		a := <-ch
 		got = append(got, a)
 		if a.res == "sat" || a.res == "unsat" {
-			// check for contradiction among those already in
 			for _, g := range got {
 				if (g.res == "sat" || g.res == "unsat") && g.res != a.res {
 					return "unknown", nil, "disagreement:" + g.by + "/" + a.by
 				}
 			}
-			var m Model
-			if a.res == "sat" && wantModel {
-				m = Model{}
-				parseModel(a.out, m)
+			if first == nil {
+				cp := a
+				first = &cp
+				if need == 1 {
+					break
+				}
+				continue
 			}
-			return a.res, m, a.by
+			// confirmed by a second back end
+			var m Model
+			if first.res == "sat" && wantModel {
+				m = Model{}
+				parseModel(first.out, m)
+			}
+			return first.res, m, first.by + "+" + a.by
 		}
+	}
+	if first != nil {
+		var m Model
+		if first.res == "sat" && wantModel {
+			m = Model{}
+			parseModel(first.out, m)
+		}
+		return first.res, m, first.by
 	}
 	return "unknown", nil, ""
 }
